@@ -3,6 +3,7 @@
 (git apply, run, git checkout), update meta.json (checks_against_patched_repo, caught_by_checks) and print a table."""
 import subprocess, sys, os, json, glob
 env = dict(os.environ, GOFLAGS='-mod=mod', GOPROXY='off', GOSUMDB='off', GOTOOLCHAIN='local'); env.pop('GOWORK', None)
+env['GZV_EVIDENCE_DIR'] = '/tmp/gzv-evidence-scratch'
 if subprocess.run(['git', 'diff', '--quiet'], cwd='/repo').returncode != 0:
     print('/repo dirty'); sys.exit(2)
 dirs = sorted(glob.glob('/verif/seeded/*/'))
